@@ -611,7 +611,7 @@ func (p *Parse) checkDepTName(ty *ast.VarType, dm *map[string]bool, dmj *map[str
 				ty.TypeSt = strings.Replace(ty.TypeSt, mod+"::", "", 1)
 			}
 		}
-	} else if ty.Type == token.TVector {
+	} else if ty.Type == token.TVector || ty.Type == token.TArray {
 		p.checkDepTName(ty.TypeK, dm, dmj)
 	} else if ty.Type == token.TMap {
 		p.checkDepTName(ty.TypeK, dm, dmj)
